@@ -1,7 +1,11 @@
 #!/bin/bash
-# usage: tools/eval_r4.sh <Cxx> <k> <name> [extra checks...]  - evaluates /tmp/r4/<Cxx>/wt/seed<k> as seeded/<name>
+# usage: tools/eval_r4.sh <Cxx> <k> <name> [extra checks...]
+# evaluates /tmp/r4/<Cxx>/wt/seed<k> as seeded/<name> in its own scratch worktree (the agent may still be using its own)
 P=$1; K=$2; NAME=$3; shift 3
-WT=/tmp/r4/$P/wt
-[ -f $WT/seed$K/patch.diff ] || { echo "no seed $P $K"; exit 2; }
-git -C $WT status --short -- pylatexenc | grep -q . && git -C $WT checkout -q -- pylatexenc
-/verif/tools/try_seed.sh $WT seed$K $NAME $P "$@"
+SRC=/tmp/r4/$P/wt/seed$K
+[ -f $SRC/patch.diff ] || { echo "no seed $P $K"; exit 2; }
+mkdir -p /verif/seeded/$NAME
+cp $SRC/patch.diff $SRC/demo.py /verif/seeded/$NAME/
+[ -f $SRC/meta.json ] && cp $SRC/meta.json /verif/seeded/$NAME/meta.agent.json
+# demo.py locates the tree through its own path: keep the two-levels-up convention (seedR/ inside the worktree)
+/verif/tools/retry_seed.sh $NAME $P "$@"
